@@ -3,6 +3,7 @@ package main
 import (
 	"bytes"
 	"context"
+	"encoding/json"
 	"errors"
 	"fmt"
 	"io"
@@ -46,7 +47,7 @@ func parseGoErr(s string) goErr {
 		return goErr{kind: "plain", text: string(unhx(s[6:]))}
 	case strings.HasPrefix(s, "plaineof:"), strings.HasPrefix(s, "plaintmo:"):
 		return goErr{kind: s[:8], text: string(unhx(s[9:]))}
-	case strings.HasPrefix(s, "coded:"), strings.HasPrefix(s, "codedctx:"), strings.HasPrefix(s, "codedwrap:"), strings.HasPrefix(s, "codedeof:"):
+	case strings.HasPrefix(s, "coded:"), strings.HasPrefix(s, "codedctx:"), strings.HasPrefix(s, "codedwrap:"), strings.HasPrefix(s, "codedeof:"), strings.HasPrefix(s, "codedjoin:"), strings.HasPrefix(s, "codedas:"):
 		kind := s[:strings.IndexByte(s, ':')]
 		p := strings.SplitN(s[len(kind)+1:], "@", 2)
 		return goErr{kind: kind, w: parseWireErr(p[0]), meta: parseHdr(p[1])}
@@ -86,6 +87,14 @@ func (g goErr) build() error {
 	}
 	for k, vs := range g.meta {
 		e.Meta()[k] = append([]string(nil), vs...)
+	}
+	switch g.kind {
+	case "codedjoin":
+		// the coded error joined with another one (errors.Join; only errors.As finds it)
+		return errors.Join(e, errors.New("and a log line"))
+	case "codedas":
+		// an error type of the application's own that presents the coded error through As
+		return asCoded{e}
 	}
 	if g.kind == "codedwrap" {
 		// … or the coded error wrapped once more on its way out of the handler
@@ -570,7 +579,7 @@ func clientRoundtrip(c *Ctx, op, proto, kind string, rec recorded, h, t hdr, sen
 		}
 		var want *wireErr
 		switch result.kind {
-		case "coded", "codedctx", "codedwrap", "codedeof":
+		case "coded", "codedctx", "codedwrap", "codedeof", "codedjoin", "codedas":
 			want = result.w
 		case "plain", "plaineof", "plaintmo":
 			want = &wireErr{code: 2, msg: result.text}
@@ -1222,6 +1231,73 @@ func unconvertibleDetailProbe(c *Ctx) {
 	}
 }
 
+// forwardedErrorProbes (C11/C02, oracle only): a gateway handler calls a backend through a
+// connect client, adds its own metadata to the error it got back and returns that error: the
+// caller sees the handler's additions (single, repeated and -Bin values) next to the backend's,
+// in every protocol on both hops.
+func forwardedErrorProbes(c *Ctx) {
+	for _, proto := range []string{"connect", "grpc", "grpcweb"} {
+		for _, kind := range []string{"unary", "server"} {
+			desc := fmt.Sprintf("%s %s call to a gateway handler that returns the (wire) error of its own backend call with metadata added", proto, kind)
+			c.Count("probe-forwarded-error")
+			got := safely(func() string {
+				backend := connect.NewUnaryHandler("/b/m", func(ctx context.Context, r *connect.Request[[]byte]) (*connect.Response[[]byte], error) {
+					e := connect.NewError(connect.CodePermissionDenied, errors.New("backend says no"))
+					e.Meta().Set("X-Backend", "b")
+					return nil, e
+				}, connect.WithCodec(rawCodec{"raw"}))
+				copts := func() []connect.ClientOption {
+					o := []connect.ClientOption{connect.WithCodec(rawCodec{"raw"})}
+					if proto == "grpc" {
+						o = append(o, connect.WithGRPC())
+					} else if proto == "grpcweb" {
+						o = append(o, connect.WithGRPCWeb())
+					}
+					return o
+				}
+				down := connect.NewClient[[]byte, []byte](&inprocClient{h: backend}, "http://h/b/m", copts()...)
+				forward := func(ctx context.Context) error {
+					_, err := down.CallUnary(ctx, connect.NewRequest(&[]byte{1}))
+					var ce *connect.Error
+					if !errors.As(err, &ce) {
+						return connect.NewError(connect.CodeInternal, errors.New("backend call did not fail as arranged"))
+					}
+					ce.Meta().Set("X-Gateway", "g")
+					ce.Meta().Add("X-Gateway-Multi", "one")
+					ce.Meta().Add("X-Gateway-Multi", "two")
+					ce.Meta().Set("X-Gateway-Bin", connect.EncodeBinaryHeader([]byte{0, 255, 7}))
+					return ce
+				}
+				var gw *connect.Handler
+				if kind == "unary" {
+					gw = connect.NewUnaryHandler("/s/m", func(ctx context.Context, r *connect.Request[[]byte]) (*connect.Response[[]byte], error) {
+						return nil, forward(ctx)
+					}, connect.WithCodec(rawCodec{"raw"}))
+				} else {
+					gw = connect.NewServerStreamHandler("/s/m", func(ctx context.Context, r *connect.Request[[]byte], s *connect.ServerStream[[]byte]) error {
+						_ = s.Send(&[]byte{1})
+						return forward(ctx)
+					}, connect.WithCodec(rawCodec{"raw"}))
+				}
+				v := callClient2(proto, kind, &inprocClient{h: gw}, copts(), []byte{1})
+				var ce *connect.Error
+				if !errors.As(v.err, &ce) || ce.Code() != connect.CodePermissionDenied {
+					return fmt.Sprintf("outcome: %v", v.err)
+				}
+				for k, want := range map[string]string{"X-Backend": "b", "X-Gateway": "g", "X-Gateway-Multi": "one,two", "X-Gateway-Bin": connect.EncodeBinaryHeader([]byte{0, 255, 7})} {
+					if g := strings.Join(ce.Meta().Values(k), ","); g != want {
+						return fmt.Sprintf("%s arrived as %q, want %q", k, g, want)
+					}
+				}
+				return "ok"
+			})
+			if got != "ok" {
+				c.Fail("rt-error-meta-forwarded", desc, got, "metadata the handler attached to the error it returns did not reach the client")
+			}
+		}
+	}
+}
+
 // sharedKeyProbes (C11/C02, oracle only): a handler sets a response trailer and returns an error
 // whose metadata uses the SAME name: both values arrive, through real HTTP, in every protocol,
 // with and without messages sent first.
@@ -1741,8 +1817,60 @@ func callClient2(proto, kind string, hc connect.HTTPClient, opts []connect.Clien
 	return v
 }
 
+// malformedErrorBodyProbes (C06, oracle only): error bodies that are not JSON at all - in the
+// shapes that trip parsers: a value missing after a colon, inside "details", inside an unknown
+// member, unterminated, deeply nested, with a BOM - are "no valid protocol-level error": the
+// call terminates (the per-operation watchdog is the bound) with the HTTP status' code for
+// unary calls and a coded error for streams.
+func malformedErrorBodyProbes(c *Ctx) {
+	docs := []string{`{"details":[{"x":}],"y":}`, `{"zzz":{"":},"b":}`, `{"code":}`, `{"code":"not_found","message":}`, `{`, `{"details":[`, `[]`, `null`, `"not_found"`,
+		`{"code":"not_found","code":"internal"}`, "\xef\xbb\xbf{\"code\":\"not_found\"}", strings.Repeat("[", 5000), strings.Repeat(`{"a":`, 3000), `{"details":[{"type":"x","value":"!!!"}]}`, `{"details":[{"type":1}],"code":"not_found"}`}
+	for _, kind := range []string{"unary", "server"} {
+		for _, doc := range docs {
+			if kind == "server" && doc == "null" {
+				continue // {"error":null} is a well-formed end of stream without an error
+			}
+			shown := doc
+			if len(shown) > 40 {
+				shown = shown[:40] + "…"
+			}
+			desc := fmt.Sprintf("Connect %s call, peer's error document is %q", kind, shown)
+			c.Count("probe-malformed-error-body")
+			c.Begin(desc)
+			got := safely(func() string {
+				var sc *staticClient
+				if kind == "unary" {
+					sc = &staticClient{status: 503, header: http.Header{"Content-Type": {"application/json"}}, body: []byte(doc)}
+				} else {
+					sc = &staticClient{status: 200, header: http.Header{"Content-Type": {"application/connect+raw"}}, body: append(frame(0, []byte{1}), frame(2, []byte(`{"error":`+doc+`}`))...)}
+				}
+				v := callClient("connect", kind, sc, nil, [][]byte{{1}})
+				if v.err == nil {
+					return "success"
+				}
+				w, _, ok := errView(v.err)
+				if !ok || w.code == 0 {
+					return "uncoded or zero code: " + v.err.Error()
+				}
+				return strconv.Itoa(w.code)
+			})
+			bad := strings.HasPrefix(got, "PANIC") || strings.HasPrefix(got, "HANG") || strings.HasPrefix(got, "uncoded") || got == "success"
+			// documents that ARE valid JSON with a valid code may be honoured; the malformed ones
+			// fall back to the HTTP status (unavailable for 503)
+			if kind == "unary" && !bad && !json.Valid([]byte(doc)) && got != "14" {
+				bad = true
+			}
+			if bad {
+				c.Fail("client-panic", desc, got, "the client must terminate with a coded error (for a unary call without a valid error document: the HTTP status' code)")
+			}
+		}
+	}
+}
+
 func extraProbes(c *Ctx) {
 	metadataProbes(c)
+	failingCompressorProbe(c, "wire-error-mislabelled")
+	malformedErrorBodyProbes(c)
 	userCodecProbe(c)
 	contentLengthProbes(c)
 	unserializableErrorProbe(c)
@@ -1751,6 +1879,7 @@ func extraProbes(c *Ctx) {
 	truncatedErrorBodyProbes(c)
 	requestWireProbes(c)
 	sharedKeyProbes(c)
+	forwardedErrorProbes(c)
 	unconvertibleDetailProbe(c)
 	cancelAtEndProbe(c)
 	midStreamAccessorProbe(c)
@@ -1891,7 +2020,7 @@ func showGoErr(g goErr) string {
 	switch g.kind {
 	case "plain", "plaineof", "plaintmo":
 		return g.kind + ":" + hx([]byte(g.text))
-	case "coded", "codedctx", "codedwrap", "codedeof":
+	case "coded", "codedctx", "codedwrap", "codedeof", "codedjoin", "codedas":
 		return g.kind + ":" + showWireErr(g.w) + "@" + showHdr(g.meta)
 	}
 	return g.kind
@@ -1954,6 +2083,9 @@ func streamProto(c *Ctx) {
 			results = append(results, goErr{kind: "codedctx", w: &wireErr{code: 2, msg: "upstream gave up", details: genDetails(r)}, meta: hdr{"X-Err": {"a", "b"}, "X-Err-Bin": {connect.EncodeBinaryHeader([]byte{0, 1, 255})}}})
 			// errors that wrap io.EOF or an I/O timeout are errors like any other
 			results = append(results, goErr{kind: "codedeof", w: &wireErr{code: 15, msg: "backend closed early", details: genDetails(r)}, meta: genHeader(r, mkeys)})
+			for _, k := range []string{"codedjoin", "codedas"} {
+				results = append(results, goErr{kind: k, w: &wireErr{code: 9, msg: "precondition", details: genDetails(r)}, meta: genHeader(r, mkeys)})
+			}
 			results = append(results, goErr{kind: "plaineof", text: "read upstream: EOF"}, goErr{kind: "plaintmo", text: "read tcp 10.0.0.1:443: i/o timeout"})
 			for i := 0; i < reps; i++ {
 				results = append(results, goErr{kind: "none"})
